@@ -390,7 +390,8 @@ Definition apply_broken (s : st) (br : bool * Z) : res st :=
       let l2 := qsub (n_end n2) (n_start n2) in
       if negb (qeqb l1 l2) then Err EParse
       else
-        let adj := qdiv l1 (qpow2 (snd br)) in
+        (* repaired code (notes/C04-fix-4.diff): a>>b is double dotted / quartered *)
+        let adj := qsub l1 (qdiv l1 (qpow2 (snd br))) in
         if fst br then   (* '>' *)
           Ok (set_notes s (mkN (n_pitch n2) (qadd (n_start n2) adj) (n_end n2)
                            :: mkN (n_pitch n1) (n_start n1) (qadd (n_end n1) adj) :: rest))
